@@ -6,6 +6,9 @@
 // ONE real operation is executed, and the postcondition taken from the property is asserted over
 // the whole abstract view + frame.
 
+// @module ogre_std::ogre_queues::atomic::atomic_move
+// @sizes ring_proofs: n2=quick n4=quick n8=thorough
+// @sizes drop_proofs: d2=quick d4=thorough
 #[allow(unused_imports)] use super::*;
 use std::sync::atomic::Ordering::Relaxed as Rx;
 
@@ -63,11 +66,13 @@ mod proofs {
 
     fn buffer_of<const N: usize>(q: &AtomicMove<u32, N>) -> [u32; N] { unsafe { *raw_buffer(q) } }
 
+    // @group ring_proofs
     macro_rules! ring_proofs { ($($modname:ident: $n:expr, $unw:expr;)*) => { $( mod $modname {
         use super::*;
         const N: usize = $n;
 
         // ---- C01/C02/C15/C16: publish_movable -----------------------------------------------------------
+        // @props C01 C02 C15 C16
         #[kani::proof] #[kani::unwind($unw)]
         fn publish_movable() {
             let (q, s, before) = any_queue::<N>();
@@ -97,6 +102,7 @@ mod proofs {
         }
 
         // ---- publish (setter variant) -----------------------------------------------------------------------
+        // @props C01 C02 C15 C16
         #[kani::proof] #[kani::unwind($unw)]
         fn publish_with_setter() {
             let (q, s, before) = any_queue::<N>();
@@ -132,6 +138,7 @@ mod proofs {
         }
 
         // ---- C01/C02: consume_movable --------------------------------------------------------------------------
+        // @props C01 C02 C15
         #[kani::proof] #[kani::unwind($unw)]
         fn consume_movable() {
             let (q, s, before) = any_queue::<N>();
@@ -152,6 +159,7 @@ mod proofs {
         }
 
         // ---- C02: length query --------------------------------------------------------------------------------
+        // @props C02 C15 C16
         #[kani::proof] #[kani::unwind($unw)]
         fn available_elements_count() {
             let (q, s, _) = any_queue::<N>();
@@ -161,6 +169,7 @@ mod proofs {
         }
 
         // ---- C08/C15/C16: reserve ----------------------------------------------------------------------------
+        // @props C08 C15 C16
         #[kani::proof] #[kani::unwind($unw)]
         fn leak_slot_internal() {
             let (q, s, before) = any_queue::<N>();
@@ -187,6 +196,7 @@ mod proofs {
         }
 
         // ---- C08/C15: publish a reservation by index (lap reconstruction) ---------------------------------
+        // @props C08 C15
         #[kani::proof] #[kani::unwind($unw)]
         #[kani::stub(crate::ogre_std::ogre_queues::atomic::atomic_move::relaxed_wait, noop)]   // `_mm_pause` is not modelled by Kani; a spin hint has no effect on state
         fn try_publish_leaked_internal_index() {
@@ -216,6 +226,7 @@ mod proofs {
         }
 
         // ---- C08/C15: cancel a reservation by index -----------------------------------------------------------
+        // @props C08 C15
         #[kani::proof] #[kani::unwind($unw)]
         fn try_unleak_slot_index_internal() {
             let (q, s, before) = any_queue::<N>();
@@ -238,6 +249,7 @@ mod proofs {
         }
 
         // ---- C08/C13: index <-> reference conversions are inverse ------------------------------------------
+        // @props C08
         #[kani::proof] #[kani::unwind($unw)]
         fn slot_index_ref_roundtrip() {
             let (q, _s, before) = any_queue::<N>();
@@ -248,6 +260,7 @@ mod proofs {
         }
 
         // ---- C01: peek_remaining == seq ----------------------------------------------------------------------
+        // @props C01 C10
         #[kani::proof] #[kani::unwind($unw)]
         fn peek_remaining() {
             let (q, s, before) = any_queue::<N>();
@@ -273,11 +286,13 @@ mod proofs {
     struct Droppy(u8);
     impl Drop for Droppy { fn drop(&mut self) { DROPS.fetch_add(1, SeqCst); } }
 
+    // @group drop_proofs
     macro_rules! drop_proofs { ($($modname:ident: $n:expr, $unw:expr;)*) => { $( mod $modname {
         use super::*;
         const N: usize = $n;
 
         /// any origin; `len` elements published through the real API; then one reject, `c` consumes, teardown with leftovers
+        // @props C05 C15
         #[kani::proof] #[kani::unwind($unw)]
         fn payload_drop_accounting() {
             let q = AtomicMove::<Droppy, N>::with_initializer(|| Droppy(0));
